@@ -9,15 +9,20 @@ import json, os, re, sys
 V = os.path.dirname(os.path.dirname(os.path.abspath(__file__)))
 
 def main():
+    # base: the matrix as committed (rows of earlier sessions); then seeded/RESULTS.json; the files given on
+    # the command line come last (the final sweeps of a session override everything older)
     m = {}
-    for f in sys.argv[1:]:
-        for sid, row in json.load(open(os.path.join(V, f))).items():
-            m.setdefault(sid, {}).update(row)
+    base = os.path.join(V, "seeded", "MATRIX.json")
+    if os.path.exists(base) and "--fresh" not in sys.argv:
+        m = json.load(open(base))
     res = json.load(open(os.path.join(V, "seeded", "RESULTS.json")))
     for sid, r in res.items():
         for pid, c in r.get("checks", {}).items():
             m.setdefault(sid, {})[pid] = {"exit": c["exit"], "violations": c.get("violation_lines", c.get("violations", 0)), "wall_s": c.get("wall_s")}
-    ids = [d for d in os.listdir(os.path.join(V, "seeded")) if os.path.isdir(os.path.join(V, "seeded", d))]
+    for f in [a for a in sys.argv[1:] if not a.startswith("--")]:
+        for sid, row in json.load(open(os.path.join(V, f))).items():
+            m.setdefault(sid, {}).update(row)
+    ids = [d for d in os.listdir(os.path.join(V, "seeded")) if os.path.exists(os.path.join(V, "seeded", d, "patch.diff"))]
     m = {k: v for k, v in m.items() if k in ids}
     un = {}
     for pid in ["C%02d" % i for i in range(1, 20)]:
